@@ -597,7 +597,7 @@ func cmdCheck(args []string) int {
 	// thorough tier: the property's own must-fail / must-pass corpus guards against vacuity holes
 	if *tier == "thorough" && *mut == "" && exit == 0 {
 		exe, _ := os.Executable()
-		cmd := exec.Command(exe, "selftest", "-p", id, "-verif", *verif)
+		cmd := exec.Command(exe, "selftest", "-p", id, "-verif", *verif, "-repo", *repo)
 		b, err := cmd.CombinedOutput()
 		lines := strings.Split(strings.TrimSpace(string(b)), "\n")
 		thoroughSelftest = lines[len(lines)-1]
